@@ -93,13 +93,19 @@ pub fn exec(case: &Value) -> Value {
                     pix.extend(buf[[ox + x, oy + y]].0);
                 }
             }
-            // vk: how the sub-view is borrowed - 0 immutably, 1 mutably (slice_mut), 2 as a slice of a slice
+            // vk: how the sub-view is borrowed - 0 immutably, 1 mutably (slice_mut), 2 as a slice of a slice, 3 see below
             let vk = case.get("vk").and_then(|v| v.as_i64()).unwrap_or(0);
             let mut buf = buf;
             let wres = if owned {
                 guard(|| write_ppm(&mut bytes, &buf))
             } else if vk == 1 {
                 guard(|| write_ppm(&mut bytes, buf.slice_mut((ox..ox + w, oy..oy + h))))
+            } else if vk == 3 && w >= 2 && oy + h < bh {
+                // a view made directly over backing data that goes on beyond its last row - by a full stride
+                // and a bit less than one row more
+                let start = (oy * bw + ox) as usize;
+                let len = (h * bw) as usize + 1 + (w as usize - 2).min((bw * bh) as usize - start - (h * bw) as usize - 1);
+                guard(|| write_ppm(&mut bytes, re::util::buf::Slice2::new((w, h), bw, &buf.data()[start..start + len])))
             } else if vk == 2 {
                 guard(|| write_ppm(&mut bytes, buf.slice((ox.., oy..)).slice((0..w, 0..h))))
             } else {
@@ -282,7 +288,7 @@ pub fn gen(args: &Args, out: &mut dyn Write) {
                 let h = if owned && i % 72 == 0 { 0 } else { h };
                 let bh = if h == 0 { 0 } else { bh };
                 emit(out, json!({"op": "rt", "bw": bw, "bh": bh, "ox": ox, "oy": oy, "w": w, "h": h,
-                                 "owned": owned as u8, "pseed": rng.below(1 << 30), "vk": (i / 8) % 3}));
+                                 "owned": owned as u8, "pseed": rng.below(1 << 30), "vk": (i / 8) % 4}));
             }
             1..=4 => {
                 // the same pixel data in a text and a binary format, any spelling
